@@ -35,6 +35,30 @@ func C09Scenario() *Scenario {
 			w.Cfg["deletedMidRollout"] = "true"
 		}
 		fair := &Policy{Name: "fair+status", EnvWhenIdle: true}
+		// in a third of the runs the ControllerRevision watch is slow: the frame that
+		// announces a new revision reaches the cache only some tens of steps after it
+		// was written, so syncs meanwhile work from a revision cache that lacks the
+		// latest revision (its creation is then refused as AlreadyExists)
+		if t.Pick(3, "revision-watch-lag") == 2 {
+			lag := 15 + 15*t.Pick(4, "revlag")
+			firstSeen := map[int64]int{}
+			fair.HoldStream = func(w *World, ws *WatchStream) bool {
+				if ws.Res != ResRevision {
+					return false
+				}
+				ev := w.NextFrame(ws)
+				if ev == nil || ev.Type != "ADDED" {
+					return false
+				}
+				at, ok := firstSeen[ev.RV]
+				if !ok {
+					at = w.step
+					firstSeen[ev.RV] = at
+				}
+				return w.step-at < lag
+			}
+			w.Cfg["revisionWatchLag"] = fmt.Sprint(lag)
+		}
 		w.EnvOps = func(w *World) []EnvOp { return s.StatusActor(true) }
 		changeStep := 0
 		second := t.Pick(3, "second-change") == 2
